@@ -28,7 +28,8 @@ def gen_block(rng, files, used_names):
         nm += "x"
     used_names.add(nm)
     if kind == "new":
-        keys["Name"] = nm
+        if rng.random() < 0.9:
+            keys["Name"] = nm        # (any subset of the lines is a block: one without Name= cannot be listed and adds nothing)
         keys["Type"] = rng.choice("0179gI")
         keys["Path"] = rng.choice(["/elsewhere", "/a/b c", "/", "URL:http://example.org/"]) + ("" if rng.random() < 0.7 else "/")
         if rng.random() < 0.6:
@@ -53,7 +54,7 @@ def gen_block(rng, files, used_names):
     else:
         # hide a file; sometimes one that is not (or no longer) there: nothing to hide, nothing else changes
         keys["Path"] = "./" + (rng.choice(files) if rng.random() < 0.8 else rng.choice(["gone.txt", "backup~", "removed last week.txt"]))
-        keys["Type"] = "X"
+        keys["Type"] = rng.choice(["X", "X", "-"])
     if rng.random() < 0.5 and kind != "hide":
         keys["Numb"] = str(rng.choice([1, 2, 3, 5, 10, -1, -2, -7, 0]))
     if rng.random() < 0.3 and kind != "hide":
@@ -93,16 +94,18 @@ def reference(dirsel, present_files, blocks, caps, names_display, abstracts):
         if p.startswith("./") or p.startswith("~/"):
             f = p[2:]
             if f in entries and f not in hidden:
-                if keys.get("Type") == "X":
+                if keys.get("Type") in ("X", "-"):
                     hidden.add(f)
                 else:
                     apply(entries[f], keys)
-            elif f not in entries and keys.get("Type") == "X":
-                pass        # a hide block for a file that is not listed hides nothing
+            elif f not in entries and (keys.get("Type") in ("X", "-") or "Name" not in keys):
+                pass        # a hide block for a file that is not listed hides nothing; a block without a name adds nothing
             elif f not in entries:
                 e = {"type": None, "name": None, "sel": dirsel + "/" + f, "host": SRV[0], "port": SRV[1], "num": 0}
                 apply(e, keys)
                 new.append(e)
+        elif "Name" not in keys:
+            pass            # nothing to list
         else:
             sel = p[:-1] if p.endswith("/") and len(p) > 0 else p
             e = {"type": None, "name": None, "sel": sel, "host": SRV[0], "port": SRV[1], "num": 0}
@@ -202,7 +205,7 @@ def run(ctx):
                         if keys["Path"] in targets and keys["Path"] not in hidden_targets:
                             continue   # two overriding blocks for one file: order of application is a tie-break the property leaves open
                         targets.add(keys["Path"])
-                        if keys.get("Type") == "X":
+                        if keys.get("Type") in ("X", "-"):
                             hidden_targets.add(keys["Path"])
                     blocks.append(keys)
                     text += t + rng.choice(["\n", "\n\n", "\n# between blocks\n\n" if False else "\n"])
@@ -300,7 +303,7 @@ def run(ctx):
                 for f, a in abstracts.items():
                     if f in caps and caps[f].get("Type") in ("X", "-"):
                         continue
-                    if any(b["Path"] == "./" + f and (b.get("Type") == "X" or "Abstract" in b) for b in blocks):
+                    if any(b["Path"] == "./" + f and (b.get("Type") in ("X", "-") or "Abstract" in b) for b in blocks):
                         continue
                     blk = ("+ABSTRACT:\r\n " + a.replace("\n", "\r\n ") + "\r\n").encode()
                     if blk not in r2.out:
